@@ -231,7 +231,7 @@ func (w *World) MayFail() map[*ssa.Function]bool {
 	var valMay func(v ssa.Value, seen map[ssa.Value]bool) bool
 	calleeMay := func(c *ssa.Call) bool {
 		if cal := c.Call.StaticCallee(); cal != nil {
-			if cal.Blocks == nil {
+			if cal.Blocks == nil || !inRepo(pkgPathOf(cal)) {
 				return true
 			}
 			return may[cal]
@@ -294,7 +294,7 @@ func (w *World) MayFail() map[*ssa.Function]bool {
 
 // calleeMayFail: may the call return a non-nil error?
 func (w *World) calleeMayFail(c *ssa.Call) bool {
-	if cal := c.Call.StaticCallee(); cal != nil && cal.Blocks != nil {
+	if cal := c.Call.StaticCallee(); cal != nil && cal.Blocks != nil && inRepo(pkgPathOf(cal)) {
 		return w.MayFail()[cal]
 	}
 	return true
